@@ -151,6 +151,47 @@ def Args.nonIdem : Args → Bool
   | .col _ as => as.nonIdem
 end
 
+mutual
+/-- a plain term: literals, bind markers and list / set / map / tuple literals of plain terms -/
+def Term.plain : Term → Bool
+  | .int | .prim _ | .bindQ | .bindNamed _ => true
+  | .list xs | .set xs | .tuple xs => xs.plain
+  | .map kvs => kvs.plain
+  | .udt _ | .cast _ _ _ | .call _ _ _ => false
+def Terms.plain : Terms → Bool
+  | .nil => true
+  | .cons t ts => t.plain && ts.plain
+def Pairs.plain : Pairs → Bool
+  | .nil => true
+  | .cons a b ps => a.plain && b.plain && ps.plain
+end
+
+mutual
+/-- a bound on the fuel the mirrored parser needs for a term: its number of tokens (plus one per element) -/
+def Term.size : Term → Nat
+  | .int | .prim _ | .bindQ => 1
+  | .bindNamed _ => 2
+  | .list xs => 2 + xs.size
+  | .set xs | .tuple xs => 3 + xs.size
+  | .map kvs => 3 + kvs.size
+  | .udt fs => 2 + fs.size
+  | .cast _ ps t => 3 + ps.length + t.size
+  | .call _ _ as => 4 + as.size
+def Terms.size : Terms → Nat
+  | .nil => 0
+  | .cons t ts => 1 + t.size + ts.size
+def Pairs.size : Pairs → Nat
+  | .nil => 0
+  | .cons a b ps => 2 + a.size + b.size + ps.size
+def Fields.size : Fields → Nat
+  | .nil => 0
+  | .cons _ v fs => 3 + v.size + fs.size
+def Args.size : Args → Nat
+  | .nil => 0
+  | .term t as => 1 + t.size + as.size
+  | .col _ as => 2 + as.size
+end
+
 /-- column names inside `( … )`, then `)` -/
 def renderCols : List Ident → List Tok → List Tok
   | [], rest => k tkRparen :: rest
